@@ -80,6 +80,37 @@ pub fn run(ctx: &Ctx) {
         if r.crashed() { ctx.panic_violation(format!("{P}:{sub}:conflict:{}", r.crash_kind()), r.describe(), cmd.replay("selector-conflict", orig, Build::Release)) }
         else if r.ok() || !r.stdout.is_empty() { ctx.violation(format!("{P}:{sub}:conflict:accepted"), format!("--account-index and --hd-path were combined and the command printed {:?}", trunc(&r.line(), 100)), cmd.replay("selector-conflict", orig, Build::Release)) }
     });
+    // both selectors as flags in every placement around the nested `sign` subcommand (before / after / one on each side)
+    let nested = ["raw", "message", "typeddata", "transaction"];
+    ctx.sweep("selector-conflict-placement", "both account selectors as flags, placed before and / or after the nested subcommand of `sign` (4 subcommands x 6 placements x index {1, 0}): never a signature", (nested.len() * 6 * 2) as u64, |i| {
+        let sub = nested[i as usize % nested.len()]; let placement = (i as usize / nested.len()) % 6; let idx = ["1", "0"][i as usize / nested.len() / 6];
+        let (a, b): (Vec<&str>, Vec<&str>) = (vec!["--account-index", idx], vec!["--hd-path", "m/44'/60'/0'/0/2"]);
+        let (mut before, mut after): (Vec<&str>, Vec<&str>) = (vec![], vec![]);
+        match placement { 0 => { before.extend(&a); before.extend(&b) } 1 => { before.extend(&b); before.extend(&a) } 2 => { before.extend(&a); after.extend(&b) } 3 => { before.extend(&b); after.extend(&a) } 4 => { after.extend(&a); after.extend(&b) } _ => { after.extend(&b); after.extend(&a) } }
+        let mut cmd = Cmd::new(&["sign", "--mnemonic", GANACHE]); for x in &before { cmd = cmd.arg(x); } cmd = cmd.arg(sub);
+        let input: Option<&[u8]> = match sub { "message" => Some(MESSAGE), "typeddata" => Some(mail_text.as_bytes()), "transaction" => Some(tx_text.as_bytes()), _ => None };
+        match input { Some(d) => { cmd = cmd.arg("-").stdin(d); } None => { cmd = cmd.arg(&format!("0x{}", hex(&RAW))); } }
+        for x in &after { cmd = cmd.arg(x); }
+        let r = cmd.run(Build::Release);
+        ctx.sample("selector-conflict-placement", || serde_json::json!({"command": trunc(&cmd.shown(), 300)}));
+        ctx.eval(format!("conflict-placement:{placement}:{:?}", r.status));
+        if r.crashed() { ctx.panic_violation(format!("{P}:sign:conflict-placement:{}", r.crash_kind()), r.describe(), cmd.replay("selector-conflict-placement", i, Build::Release)) }
+        else if r.ok() || !r.stdout.is_empty() { ctx.violation(format!("{P}:sign:conflict-placement:accepted"), format!("--account-index and --hd-path were combined (placement {placement}) and `sign {sub}` printed {:?}", trunc(&r.line(), 100)), cmd.replay("selector-conflict-placement", i, Build::Release)) }
+    });
+    // commands that take no account must not look at account options in the environment (not even to validate them)
+    let noise: [&[(&str, &str)]; 4] = [&[("MNEMONIC", "not a mnemonic")], &[("ACCOUNT_INDEX", "x"), ("HD_PATH", "nonsense")], &[("PASSWORD", "\u{e9}"), ("MNEMONIC", GANACHE), ("ACCOUNT_INDEX", "7")], &[("HD_PATH", "m/0"), ("ACCOUNT_INDEX", "1")]];
+    let hash_subs = ["hash message", "hash transaction", "hash typeddata", "hash typeddata --message-hash", "hash data", "hex encode"];
+    ctx.sweep("environment-noise", "hash message / transaction / typeddata / data and hex encode with (valid, invalid and conflicting) account options in the environment: same output as without", (noise.len() * hash_subs.len()) as u64, |i| {
+        let envs = noise[i as usize % noise.len()]; let sub = hash_subs[i as usize / noise.len()]; let parts: Vec<&str> = sub.split(' ').collect();
+        let input: &[u8] = match parts[1] { "transaction" => tx_text.as_bytes(), "typeddata" => mail_text.as_bytes(), _ => MESSAGE };
+        let mut cmd = Cmd::new(&[parts[0], parts[1], "-"]).stdin(input); for p in &parts[2..] { cmd = cmd.arg(p); } for (k, v) in envs { cmd = cmd.env(k, v); }
+        let want = match sub { "hash message" => format!("0x{}", hex(&eip191_digest(MESSAGE))), "hash transaction" => format!("0x{}", hex(&tx.signing_hash())), "hash typeddata" => format!("0x{}", hex(&mail_d.digest)), "hash typeddata --message-hash" => format!("0x{}", hex(&mail_d.message_hash)), "hash data" => format!("0x{}", hex(&keccak256(MESSAGE))), _ => format!("0x{}", hex(MESSAGE)) };
+        let r = cmd.run(Build::Release);
+        ctx.sample("environment-noise", || serde_json::json!({"command": trunc(&cmd.shown(), 300)}));
+        ctx.eval(format!("env-noise:{sub}:{}", if r.ok() { "printed" } else { "refused" }));
+        if r.crashed() { ctx.panic_violation(format!("{P}:{sub}:env-noise:{}", r.crash_kind()), r.describe(), cmd.replay("environment-noise", i, Build::Release)) }
+        else if r.out() != format!("{want}\n") { ctx.violation(format!("{P}:{sub}:env-noise:wrong-output"), format!("with account options in the environment the command printed {:?} ({}), expected {want}", trunc(&r.line(), 100), trunc(&r.stderr, 120)), cmd.replay("environment-noise", i, Build::Release)) }
+    });
     // `hash data` is Keccak-256 of the input bytes as they are: content classes with prefixes / suffixes text-oriented code treats specially
     let hd: Vec<(String, Vec<u8>)> = [b"hello".as_slice(), b"\x00\x01\xfe\xff"].iter().flat_map(|c| explore::affix_classes(c)).collect();
     ctx.sweep("hash-data-content", "`hash data` (file and stdin) on inputs with byte order marks, 0x, white space, NUL, line ends and other lead-ins / tails around a core", (hd.len() * 2) as u64, |i| {
